@@ -2,7 +2,7 @@
 //! Correspondence: font-types operators vs Model/Fixed.lean on a boundary grid² + random operands,
 //! exhaustive 16-bit conversions.  Oracles (model-independent): exact i128 rounding, float and
 //! big-endian round trips, ordering.
-use crate::common::*;
+use fv_harness::common::*;
 use font_types::{F26Dot6, F2Dot14, Fixed, Int24, Scalar, Uint24};
 
 fn rha_q(p: i128, q: i128) -> i128 {
@@ -152,7 +152,11 @@ fn exhaustive24(s: &mut Session, thorough: bool) {
     }
 }
 
-pub fn run(cfg: &Config, s: &mut Session) {
+fn main() {
+    fv_harness::main_with("C15", run);
+}
+
+fn run(cfg: &Config, s: &mut Session) {
     let mut rng = Rng::new(cfg.seed);
     let grid = boundary_i32();
     s.notes.push(format!("boundary grid: {} operands per side", grid.len()));
